@@ -19,7 +19,12 @@ Inductive c04_case :=
 (* the same bytes served by a raw TCP peer to the real client (Transport.RoundTrip): what the
    caller saw; [reused]: where the peer saw the client's NEXT request arrive (Some true = on
    the same connection), measured only when the stream is exactly one complete message *)
-| TcpCase (meth : bytes) (stream : bytes) (obs : obs_resp) (reused : option bool).
+| TcpCase (meth : bytes) (stream : bytes) (obs : obs_resp) (reused : option bool)
+(* two exchanges, the second started the moment the first's connection was offered for reuse:
+   [stream] answers the first request (method [meth]), [seg2] is what the peer writes in answer
+   to the second (a GET) on whichever connection it arrives; [same] = it arrived on the first
+   connection *)
+| ConnCase (meth : bytes) (stream seg2 : bytes) (obs1 : obs_resp) (same : bool) (obs2 : obs_resp).
 
 Definition herr_eqb (a b : herr) : bool :=
   match a, b with
@@ -60,6 +65,19 @@ Definition hmap_eqb (a b : hmap) : bool :=
                      | Some vs => list_eqb bytes_eqb (snd kv) vs
                      | None => false
                      end) a.
+
+(* what a caller sees of one exchange through RoundTrip + ReadAll(Body) *)
+Definition view_matches (r : resp) (b : body_result) (o : obs_resp) : bool :=
+  match o with
+  | OAcc proto code status hdr cl chunked close _ body bend trailer _ =>
+      bytes_eqb (r_proto r) proto && (r_code r =? code)%Z && bytes_eqb (r_status r) status &&
+      hmap_eqb (r_header r) hdr && (r_content_length r =? cl)%Z &&
+      Bool.eqb (r_chunked r) chunked && Bool.eqb (r_close r) close &&
+      bytes_eqb (b_data b) body &&
+      Bool.eqb (berr_eqb (b_end b) BOk) (berr_eqb bend BOk) &&
+      (match b_end b with BOk => hmap_eqb (b_trailer b) trailer | _ => true end)
+  | ORej _ => false
+  end.
 
 Definition c04_check (c : c04_case) : bool :=
   match c with
@@ -103,5 +121,20 @@ Definition c04_check (c : c04_case) : bool :=
            | None => true
            end)
       | _, _ => false
+      end
+  | ConnCase m s seg2 o1 same o2 =>
+      match conn_exchanges reuse_real [] [(m, s); (bs "GET", seg2)] with
+      | Some (r1, b1) :: tl =>
+          view_matches r1 b1 o1 &&
+          match tl with
+          | [Some (r2, b2)] => same && view_matches r2 b2 o2           (* served by the same connection *)
+          | [] => negb same &&                                          (* not reused: a fresh connection *)
+                  match exchange (bs "GET") [] seg2 with
+                  | Some (r2, b2) => view_matches r2 b2 o2
+                  | None => false
+                  end
+          | _ => false
+          end
+      | _ => false
       end
   end.
